@@ -740,10 +740,109 @@ def c2s_case(draw, kind="num", op=None):
     return {"tree": tree, "point": {n: draw(st.sampled_from(VALS)) for n in NAMES[:4]}}
 
 
+class _NoInterp(Exception):
+    pass
+
+
+def mp_eval_sympy(e, values, dps=50):
+    """Direct 50-digit interpreter of a SymPy expression tree (standard meaning of every node: Mod(a, b) = a - b floor(a/b),
+    Piecewise = first true condition, ...).  Used for expressions containing Mod / floor, where SymPy's own substitution goes
+    through exact-number simplification (Mod.eval -> equals -> simplify -> logcombine) and can spend hours in one huge integer
+    power.  Raises _NoInterp for a node type it does not know (the caller then falls back to SymPy)."""
+    import mpmath as mp
+
+    F = sympy
+    un = {F.sin: mp.sin, F.cos: mp.cos, F.tan: mp.tan, F.asin: mp.asin, F.acos: mp.acos, F.atan: mp.atan, F.sinh: mp.sinh,
+          F.cosh: mp.cosh, F.tanh: mp.tanh, F.asinh: mp.asinh, F.acosh: mp.acosh, F.atanh: mp.atanh, F.exp: mp.exp, F.log: mp.log,
+          F.Abs: abs, F.sign: mp.sign, F.floor: mp.floor, F.ceiling: mp.ceil, F.erf: mp.erf}
+
+    def num(x):
+        if isinstance(x, bool):
+            raise _NoInterp("boolean used as a number")
+        return x
+
+    def ev(x):
+        if x is F.true or x is True:
+            return True
+        if x is F.false or x is False:
+            return False
+        if isinstance(x, F.Symbol):
+            return mp.mpf(float(values[str(x)]))
+        if isinstance(x, F.Float):
+            return mp.mpf(float(x))  # constants are exact doubles
+        if isinstance(x, F.Integer):
+            return mp.mpf(int(x))
+        if isinstance(x, F.Rational):
+            return mp.mpf(int(x.p)) / mp.mpf(int(x.q))
+        if x is F.pi:
+            return mp.pi
+        if x is F.E:
+            return mp.e
+        if isinstance(x, F.Add):
+            return mp.fsum(num(ev(a)) for a in x.args)
+        if isinstance(x, F.Mul):
+            r = mp.mpf(1)
+            for a in x.args:
+                r = r * num(ev(a))
+            return r
+        if isinstance(x, F.Pow):
+            return num(ev(x.args[0])) ** num(ev(x.args[1]))
+        if isinstance(x, F.Mod):
+            a, b = num(ev(x.args[0])), num(ev(x.args[1]))
+            return a - b * mp.floor(a / b)
+        if isinstance(x, F.Max):
+            return max(num(ev(a)) for a in x.args)
+        if isinstance(x, F.Min):
+            return min(num(ev(a)) for a in x.args)
+        if isinstance(x, F.atan2):
+            return mp.atan2(num(ev(x.args[0])), num(ev(x.args[1])))
+        if isinstance(x, F.Piecewise):
+            for val, cond in x.args:
+                if ev(cond):
+                    return ev(val)
+            return mp.nan
+        if isinstance(x, F.ITE):
+            return ev(x.args[1]) if ev(x.args[0]) else ev(x.args[2])
+        if isinstance(x, F.And):
+            return all(bool(ev(a)) for a in x.args)
+        if isinstance(x, F.Or):
+            return any(bool(ev(a)) for a in x.args)
+        if isinstance(x, F.Not):
+            return not bool(ev(x.args[0]))
+        rel = {F.StrictLessThan: lambda a, b: a < b, F.LessThan: lambda a, b: a <= b, F.StrictGreaterThan: lambda a, b: a > b,
+               F.GreaterThan: lambda a, b: a >= b, F.Equality: lambda a, b: a == b, F.Unequality: lambda a, b: a != b}
+        for cls, f in rel.items():
+            if isinstance(x, cls):
+                return bool(f(num(ev(x.args[0])), num(ev(x.args[1]))))
+        for cls, f in un.items():
+            if isinstance(x, cls):
+                return f(num(ev(x.args[0])))
+        raise _NoInterp(type(x).__name__)
+
+    with mp.workdps(dps):
+        v = ev(e)
+        if isinstance(v, bool):
+            return v
+        if isinstance(v, mp.mpc):
+            if abs(v.imag) > mp.mpf(10) ** (-dps + 10) * (1 + abs(v.real)):
+                return sympy.nan if False else complex(v)
+            v = v.real
+        if not mp.isfinite(v):
+            return sympy.nan
+        return sympy.Float(mp.nstr(v, 40), 40)
+
+
 def sympy_eval(e, syms, point):
     subs = {s_: sympy.Float(point[str(n)], 40) for n, s_ in syms.items() for _ in [0]}
     if isinstance(e, (bool, int, float)):
         return e
+    if hasattr(e, "has") and (e.has(sympy.Mod) or e.has(sympy.floor)):
+        try:
+            return mp_eval_sympy(e, {str(n): point[str(n)] for n in syms})
+        except _NoInterp:
+            pass
+        except (ZeroDivisionError, ValueError, OverflowError):
+            return sympy.nan
     if hasattr(e, "atoms"):
         # constants arrive as 15-digit Floats holding exact doubles: extend their precision (same binary value) so that
         # Mod / floor of large quotients are evaluated exactly, as C's fmod / remainder are
